@@ -1762,6 +1762,12 @@ class RepeatingEngine(Engine):
                 self.kernelCompleted = lastAction
                 if self.kernelCompleted:
                     self.log.info("I am now considered finished! - No more executions")
+                else:
+                    # VV: The "kill-after-producers-done-delay" fired but nobody stopped the monitor (e.g. it fired
+                    #     in-between 2 invocations while self.process was pointing to an already finished task).
+                    self.log.info("Servicing my \"kill-after-producers-done-delay\"")
+                    self.kernelCompleted = True
+                    self.kill()
             else:
                 # By default assume new output - only check if requested
                 isNewOutput = True
@@ -1977,8 +1983,8 @@ class RepeatingEngine(Engine):
             def suicide(err=None):
                 self._suicide = True
                 self.log.info("Will proceed to terminate because of kill-after-producers-done-delay")
-                if self.process is not None:
-                    # VV: RepeatingEngine must be currently running, signal it to stop
+                if self.process is not None and self.process.isAlive():
+                    # VV: RepeatingEngine is currently running a task, signal it to stop
                     self.process.kill()
                 else:
                     # VV: RepeatingEngine must be in-between consecutive invocations
